@@ -532,6 +532,31 @@ func runC16(r *mc.Run) {
 					}})
 				}
 			}
+			// one option at a time holding the right value in ANOTHER byte order (GUID mixed-endian, reversed): a mismatch
+			// to be reported, never something to put right in the caller's bytes
+			for _, f := range optFields {
+				for _, mode := range []string{"guid-mixed-endian", "reversed"} {
+					f, mode := f, mode
+					voShapes = append(voShapes, voShape{fmt.Sprintf("%s-in-%s-order", f.name, mode), func() *validate.Options {
+						o := &validate.Options{}
+						v := append(make([]byte, 0, f.len+16), raw0[f.off:f.off+f.len]...)
+						rev := func(x []byte) {
+							for i, j := 0, len(x)-1; i < j; i, j = i+1, j-1 {
+								x[i], x[j] = x[j], x[i]
+							}
+						}
+						if mode == "reversed" {
+							rev(v)
+						} else if len(v) >= 8 {
+							rev(v[0:4])
+							rev(v[4:6])
+							rev(v[6:8])
+						}
+						f.set(o, v)
+						return o
+					}})
+				}
+			}
 			copyOpts := func(o *validate.Options) *validate.Options {
 				cb := func(b []byte) []byte {
 					if b == nil {
